@@ -11,7 +11,8 @@ RULE = (
     "2-4 real threads under vf.sched, each a program of <=8 ops from {registry(), proxied add, remove(), registry.has(), proxied "
     "contains/expunge_all}; registry kind: thread-local, scopefunc with distinct scope ids, scopefunc with scope ids shared by threads (no remove "
     "there); schedule = drawn pre-emptions at traced lines of orm/scoping.py and util/_collections.py. enum2: all schedules with <=2 "
-    "pre-emptions for 2 threads x 3 ops. Non-trivial: >=2 threads interleave a registry()/remove() pair with >=1 pre-emption taken inside registry code; "
+    "pre-emptions for 2 threads x 3 ops. lifetimes: 2-6 plain threads that run one after another (each ends before the next starts, so the OS recycles the thread "
+    "ident), programs of <=5 ops, some ending without remove(); non-trivial there: an earlier thread left a session behind. Non-trivial (scheduled subs): >=2 threads interleave a registry()/remove() pair with >=1 pre-emption taken inside registry code; "
     "distinct = canonical JSON"
 )
 ASSUMPTIONS = [
@@ -212,8 +213,81 @@ def _enum2(tier):
                 yield {"kind": kind, "programs": progs, "scopes": scopes, "preempt": [[a, 0], [b, 0]], "picks": []}
 
 
+# ------------------------------------------------------------------------------------ thread lifetimes (scope = the thread, not its ident)
+def check_lifetimes(case, ctx):
+    """threads that start and END one after another (the OS recycles thread idents): every new thread is a new scope, whatever an
+    earlier, finished thread left behind without remove()"""
+    import threading
+
+    from sqlalchemy.orm import scoped_session, sessionmaker
+
+    fam = _family()
+    Obj, CS = fam["Obj"], fam["CountingSession"]
+    ss = scoped_session(sessionmaker(class_=CS))
+    seen = []  # sessions handed to earlier (finished) threads
+    idents = []
+    problems = []
+
+    def run(prog, k):
+        try:
+            idents.append(threading.get_ident())
+            mine = None
+            if ss.registry.has():
+                problems.append(("C52/lifetime/new-thread-already-has-a-session", f"thread #{k} (ident {threading.get_ident()}): registry.has() is True before its first use"))
+            for op in prog:
+                name = op[0]
+                if name in ("get", "add", "contains", "expunge_all"):
+                    s = ss()
+                    if mine is None:
+                        if any(s is o for o in seen):
+                            left = len(list(s.new))
+                            problems.append(("C52/lifetime/session-of-finished-thread-reused", f"thread #{k} received the Session of an earlier, finished thread ({left} pending objects left in it)"))
+                        mine = s
+                    elif s is not mine:
+                        problems.append(("C52/registry/different-session-within-scope", f"thread #{k}: a different Session without remove()"))
+                    if name == "add":
+                        ss.add(Obj())
+                    elif name == "expunge_all":
+                        ss.expunge_all()
+                elif name == "has":
+                    if ss.registry.has() != (mine is not None):
+                        problems.append(("C52/registry/has", f"thread #{k}: has() == {ss.registry.has()}, model {mine is not None}"))
+                elif name == "remove":
+                    before = [o.vf_closed for o in seen]
+                    ss.remove()
+                    if [o.vf_closed for o in seen] != before:
+                        problems.append(("C52/lifetime/remove-closed-session-of-finished-thread", f"thread #{k}: remove() closed a Session that belongs to an earlier thread"))
+                    if mine is not None and mine.vf_closed < 1:
+                        problems.append(("C52/remove/current-session-not-closed-once", f"thread #{k}: remove() did not close its Session"))
+                    if mine is not None:
+                        seen.append(mine)
+                    mine = None
+            if mine is not None:
+                seen.append(mine)
+        except BaseException as e:  # noqa
+            problems.append(("crash", repr(e)))
+
+    for k, prog in enumerate(case["phases"]):
+        t = threading.Thread(target=run, args=(prog, k))
+        t.start()
+        t.join()
+    reused = len(set(idents)) < len(idents)
+    left_behind = sum(1 for p in case["phases"][:-1] if any(o[0] in ("get", "add") for o in p) and (not p or p[-1][0] != "remove"))
+    ctx.note(case, len(case["phases"]) >= 2 and left_behind >= 1, classes=["lifetimes", "ident-reused" if reused else "ident-not-reused", "left-behind%d" % min(left_behind, 3)])
+    for sig, msg in problems:
+        if sig == "crash":
+            from vf.api import HarnessError
+
+            raise HarnessError(msg)
+        raise Violation(sig, msg + f" (thread idents {idents})")
+
+
+_life = st.fixed_dictionaries({"phases": st.lists(st.lists(_opst, min_size=1, max_size=5), min_size=2, max_size=6)})
+
+
 def subs(tier):
     return [
         Enumerated("enum2", check, cases=_enum2),
         Generated("random", check, strategy=_cases(), quick=1500, thorough=60000),
+        Generated("lifetimes", check_lifetimes, strategy=_life, quick=600, thorough=20000),
     ]
